@@ -56,7 +56,7 @@ func endToEnd(k *report.Check) {
 	if k.Thorough() {
 		scales = [][2]int{{2, 1}, {1, 2}, {3, 2}, {2, 3}, {3, 1}, {1, 3}, {2, 2}, {4, 3}, {3, 4}}
 	}
-	p := eparams{depth: k.Pick(3, 4), post: k.Pick(1, 2), scales: scales, hot: [][]int{{1, 2}, {0, 1, 2, 3}}[k.Pick(0, 1)]}
+	p := eparams{depth: k.Pick(3, 4), post: 1, scales: scales, hot: []int{1, 2}}
 	k.ExploreProc(fmt.Sprintf("stores/d=%d+%d", p.depth, p.post), mc.Config{}, p, e2eBody)
 }
 
